@@ -1,0 +1,21 @@
+// Copyright 2026 Juan Pablo Tosso and the OWASP Coraza contributors
+// SPDX-License-Identifier: Apache-2.0
+
+//go:build verif && (tinygo || coraza.no_memoize)
+
+package memoize
+
+// VerifEntry describes one cache entry (verification tooling only).
+type VerifEntry struct {
+	Key    string
+	Owners []uint64
+	Type   string
+}
+
+// VerifCompiledIn reports whether the process-wide cache is compiled in.
+const VerifCompiledIn = false
+
+// VerifSnapshot returns nothing: the cache is compiled out.
+func VerifSnapshot() []VerifEntry { return nil }
+
+var _ = typeName
